@@ -43,6 +43,39 @@ def gen_cases(ctx):
         ls = rng.choice(stored)
         lr = [rng.choice(["x", "y", "z", "w"]) for _ in range(rng.randint(2, 5))]
         cases.append((kind, which, c03.mk(rng, kind, ls), lr))
+    # MANY names (more than a dozen, two-digit suffixes: numeric order differs from lexicographic order)
+    big = ["v%d" % i for i in range(14)]
+    for _ in range(80 if th else 24):
+        kind, which = rng.choice([(1, 1), (2, 1), (2, 2), (2, 3)])
+        ls = rng.sample(big, rng.randint(10, 14))
+        r = rng.random()
+        if r < 0.1:
+            lr = list(ls)
+        elif r < 0.2:
+            lr = sorted(ls)
+        elif r < 0.4:                      # the stored names exactly, two of them exchanged (ends kept / an end moved)
+            lr = list(ls)
+            i, j = rng.sample(range(1, len(lr) - 1), 2) if rng.random() < 0.6 else rng.sample(range(len(lr)), 2)
+            lr[i], lr[j] = lr[j], lr[i]
+        elif r < 0.5:
+            lr = list(reversed(ls))
+        elif r < 0.6:
+            k = rng.randint(1, len(ls) - 1)
+            lr = ls[k:] + ls[:k]
+        elif r < 0.7:
+            lr = rng.sample(ls, len(ls))
+        else:
+            lr = rng.sample(big, rng.randint(1, 14))
+        cases.append((kind, which, c03.mk(rng, kind, ls), lr))
+    # EVERY permutation of the stored names requested, four names (the requested SET equals the stored set; only the order
+    # differs: first / last kept or moved, interior exchanged): quick = one stored order per requested permutation
+    import itertools
+    four = ["x", "y", "z", "w"]
+    perms = [list(p) for p in itertools.permutations(four)]
+    for kind, which in ((1, 1), (2, 1), (2, 2), (2, 3)):
+        for lr in perms:
+            for ls in (perms if th else [four, rng.choice(perms)]):
+                cases.append((kind, which, c03.mk(rng, kind, list(ls)), lr))
     return cases
 
 
